@@ -167,10 +167,13 @@ Definition authority_of (t : bytes) : option bytes :=
   | [] => None
   end.
 
-Definition target_ok (d : devs) (t : bytes) : bool :=
-  nonempty t
-  && forallb (fun x => negb ((x =? 32) || (x =? 13) || (x =? 10))
-                       && ((x <? 128) || (dv_target_dslash d && startswith t [47; 47]))) t
+(* request-target = 1*( octet except SP CR LF ) *)
+Definition target_shape (t : bytes) : bool :=
+  nonempty t && forallb (fun x => negb ((x =? 32) || (x =? 13) || (x =? 10))) t.
+
+(* ... of which only ASCII targets with a balanced IP-literal are URIs (RFC 3986) *)
+Definition target_policy (d : devs) (t : bytes) : bool :=
+  forallb (fun x => (x <? 128) || (dv_target_dslash d && startswith t [47; 47])) t
   && match authority_of t with
      | Some a => Bool.eqb (memb 91 a) (memb 93 a)
      | None => true
@@ -179,18 +182,27 @@ Definition target_ok (d : devs) (t : bytes) : bool :=
 (* "HTTP/" DIGIT "." DIGIT  ->  DIGIT "." DIGIT *)
 Definition version_of (v : bytes) : option bytes :=
   match v with
-  | [72; 84; 84; 80; 47; a; 46; b] => if is_dig a && is_dig b then Some [a; 46; b] else None
+  | [h; t1; t2; p; sl; a; dot; b] =>
+    if (h =? 72) && (t1 =? 84) && (t2 =? 84) && (p =? 80) && (sl =? 47) && is_dig a && (dot =? 46) && is_dig b
+    then Some [a; 46; b] else None
+  | _ => None
+  end.
+
+(* the grammar of the line: method SP target [ SP version ] *)
+Definition request_line_shape (line : bytes) : option (bytes * bytes * bytes) :=
+  match split_on 32 line [] with
+  | [m; t] => if method_ok m && target_shape t then Some (m, t, []) else None
+  | [m; t; v] =>
+    if method_ok m && target_shape t then
+      match version_of v with Some ver => Some (m, t, ver) | None => None end
+    else None
   | _ => None
   end.
 
 Definition parse_request_line (d : devs) (line : bytes) : option (bytes * bytes * bytes) :=
-  match split_on 32 line [] with
-  | [m; t] => if method_ok m && target_ok d t then Some (m, t, []) else None
-  | [m; t; v] =>
-    if method_ok m && target_ok d t then
-      match version_of v with Some ver => Some (m, t, ver) | None => None end
-    else None
-  | _ => None
+  match request_line_shape line with
+  | Some (m, t, v) => if target_policy d t then Some (m, t, v) else None
+  | None => None
   end.
 
 (* what is done to the raw first line before it is parsed *)
